@@ -250,13 +250,13 @@ Lemma encode_length_pos x : (1 <= length (encode x))%nat.
 Proof. destruct x; simpl; apply encode_bytes_length_pos. Qed.
 
 Lemma min_bytes_be_min n : (N.of_nat n <= maxInt32)%N ->
-  minimal_bytes_to_int64 (int64_to_minimal_bytes (N.of_nat n)) = Ok n.
+  minimal_bytes_to_int64 (int64_to_minimal_bytes (N.of_nat n)) = Ok (N.of_nat n).
 Proof.
   intros H. unfold minimal_bytes_to_int64. unfold maxInt32 in *.
   rewrite of_be_min by lia. rewrite N.mod_small by lia.
   replace (N.of_nat n <? 2 ^ 63)%N with true by (symmetry; apply N.ltb_lt; lia).
   replace (N.of_nat n <=? 2147483647)%N with true by (symmetry; apply N.leb_le; lia).
-  simpl. rewrite Nat2N.id. reflexivity.
+  simpl. reflexivity.
 Qed.
 
 Lemma extract_long_ok off (p tail : bytes) :
@@ -274,9 +274,9 @@ Proof.
   apply N.leb_le in Hok.
   subst lb. rewrite min_bytes_be_min by exact Hok. cbn [bind].
   rewrite skipn_prefix.
-  replace (length (p ++ tail) <? length p)%nat with false
-    by (symmetry; apply Nat.ltb_ge; rewrite app_length; lia).
-  reflexivity.
+  replace (N.of_nat (length (p ++ tail)) <? N.of_nat (length p))%N with false
+    by (symmetry; apply N.ltb_ge; rewrite app_length; lia).
+  rewrite Nat2N.id. reflexivity.
 Qed.
 
 Definition lim_next (limit : option nat) : option nat :=
@@ -468,7 +468,7 @@ Proof.
 Qed.
 
 Lemma minimal_bytes_ok data n : (length data <= 8)%nat -> minimal_bytes_to_int64 data = Ok n ->
-  of_be data = N.of_nat n /\ (N.of_nat n <= maxInt32)%N.
+  of_be data = n /\ (n <= maxInt32)%N.
 Proof.
   intros Hl. unfold minimal_bytes_to_int64.
   assert (of_be data < 2 ^ 64)%N as Hb.
@@ -478,7 +478,7 @@ Proof.
   rewrite N.mod_small by exact Hb.
   destruct (of_be data <? 2 ^ 63)%N eqn:E1; simpl; try discriminate.
   destruct (of_be data <=? maxInt32)%N eqn:E2; simpl; try discriminate.
-  intros H; injection H as <-. apply N.leb_le in E2. rewrite N2Nat.id. split; [reflexivity|exact E2].
+  intros H; injection H as <-. apply N.leb_le in E2. split; [reflexivity|exact E2].
 Qed.
 
 Lemma minimal_bytes_not_panic data : minimal_bytes_to_int64 data <> Panic.
@@ -508,10 +508,10 @@ Proof.
   rewrite E. cbn [bind].
   destruct (minimal_bytes_to_int64 lb) as [dl|e|] eqn:Em; cbn [bind].
   - apply minimal_bytes_ok in Em; [|lia]. destruct Em as [Eo Hmax].
-    destruct (Nat.ltb_spec (length (skipn lol (skipn 1 rest))) dl) as [Hd|Hd]; [discriminate|].
+    destruct (N.ltb_spec (N.of_nat (length (skipn lol (skipn 1 rest)))) dl) as [Hd|Hd]; [discriminate|].
     cbv zeta. rewrite skipn_skipn' in *.
     repeat split; try lia; auto.
-    exists lb. split; [lia|exact Eo].
+    exists lb. split; [lia|]. rewrite N2Nat.id. exact Eo.
   - unfold minimal_bytes_to_int64 in Em. destruct (_ && _); inversion Em. discriminate.
   - exfalso. eapply minimal_bytes_not_panic; eauto.
 Qed.
